@@ -36,7 +36,7 @@ class P:
         self.saved = {}      # line -> set of "hexkey:tid" that the file legitimately contains
 
     def budget(self, tier):
-        return 300 if tier == "quick" else 20000
+        return 300 if tier == "quick" else 6000
 
     def hist(self, g, rng, proto, tpls_by_addr):
         """history used after the load: data for the saved templates, a fresh announcement + data, an unknown id"""
